@@ -11,11 +11,11 @@
     ensures
         // C06: with the stale policy 'reject' a CRL past its nextUpdate is never accepted
         res matches Ok(Some(t)) ==> (old(self).run.validation.stale is Reject ==> !t.1.stale_spec()),
-        // C06: with 'warn' / 'accept' (and with 'reject' for a CRL that is not stale) the CRL is
+        // C06 C01: with 'warn' / 'accept' (and with 'reject' for a CRL that is not stale) the CRL is
         // processed normally: it is accepted exactly if all the other checks pass; the staleness
         // flag plays no other role
         res is Ok && res->Ok_0 is Some <==> crl_accepted(old(self), ee_cert, manifest, repository),
-        // the accepted CRL is the listed, loaded, decoded one
+        // C06 C01: the accepted CRL is the listed, loaded, decoded one
         res matches Ok(Some(t)) ==> ({
             &&& ee_cert.crl_uri_spec() == Some(t.0)
             &&& repository.load_spec(&t.0) == Ok::<Option<Bytes>, RunFailed>(Some(t.2))
@@ -71,7 +71,7 @@
         // C06: with the stale policy 'reject' neither a stale manifest nor a stale CRL is accepted
         res matches Ok(Some(m)) ==> (old(self).run.validation.stale is Reject
             ==> !m.content.stale_spec() && !m.crl.stale_spec()),
-        // what is accepted is the decoded, validated manifest with its listed CRL
+        // C06 C01: what is accepted is the decoded, validated manifest with its listed CRL
         res matches Ok(Some(m)) ==> ({
             let strict = old(self).run.validation.strict;
             &&& manifest_decode_spec(manifest_bytes, strict) is Ok
@@ -104,9 +104,9 @@
         // nor a stale CRL is accepted
         res matches Ok(m) ==> (old(self).run.validation.stale is Reject
             ==> !m.content.stale_spec() && !m.crl.stale_spec()),
-        // C06: otherwise it is processed normally: accepted exactly if all other checks pass
+        // C06 C01: otherwise it is processed normally: accepted exactly if all other checks pass
         res is Ok <==> stored_accepted(old(self), stored_manifest),
-        // what is accepted is the decoded, validated stored manifest with the stored CRL
+        // C06 C01: what is accepted is the decoded, validated stored manifest with the stored CRL
         res matches Ok(m) ==> ({
             let strict = old(self).run.validation.strict;
             &&& manifest_decode_spec(stored_manifest.manifest, strict)->Ok_0.validate_spec(&old(self).cert.cert, strict)
